@@ -7,7 +7,7 @@ EXPLANATION = (
     "(each an arbitrary Unicode scalar): the solver shows the result is non-empty, ends in LF and no line ends in a White_Space "
     "character. A second group of obligations executes Typstyle::format_source_inspect / format_content / format_with_width from "
     "their MIR with the printer opaque and shows that every Ok value is exactly strip(render(doc, max_width)), so the kernel fact "
-    "is what the public API returns. Strings longer than N are outside the claim; the kernel keeps no state across lines.")
+    "is what the public API returns. Strings longer than N are outside the claim; the kernel keeps no state across lines. Session 3: when the post-processing unit is not in the MIR nothing is decided; the property is then stated on the real library over documents with empty lines in nested constructs and carriage returns x widths x indent units up to 257 (native sweep).")
 
 
 def run(S):
